@@ -113,6 +113,23 @@ def property_variants():
 
     for kind in ("plain", "copy", "child", "child-no-props"):
         out.append(("class K %s (inherits minProperties/required/description/patternProperties)" % kind, inherit(kind)))
+    def edited(kind):
+        def f():
+            e = Element(properties={"a": Property(String())}, required=["z"]) if kind != "fresh" else Element(properties={"a": Property(String()), "b": Property(Integer(), required=True)}, required=["z", "y"])
+            if kind != "fresh":
+                impl.do_call(e, {"a": "x", "z": 1})
+                impl.do_call(e, {})
+                e.properties["b"] = Property(Integer(), required=True)
+                e.required.append("y")
+            return e
+
+        return f
+
+    out.append(("Element built directly (a, b required; required z, y)", edited("fresh")))
+    out.append(("Element validated, then edited IN PLACE to (a, b required; required z, y)", edited("edited")))
+    for req in (True, False):
+        out.append(("Element(properties a: String(default) required=%s)" % req, lambda req=req: Element(properties={"a": Property(String(default="x"), required=req)})))
+        out.append(("class M{a: String(default) required=%s}" % req, cls("M", {"a": (lambda: String(default="x"), req, None)})))
     out.append(("Element(properties a:int)", lambda: Element(properties={"a": Property(Integer())})))
     out.append(("Element(properties a:int required)", lambda: Element(properties={"a": Property(Integer(), required=True)})))
     out.append(("Element(properties a:int source=A)", lambda: Element(properties={"a": Property(Integer(), source="A")})))
